@@ -591,3 +591,172 @@ Section FdLoops.
           exists f1. split; [reflexivity|]. split; [discriminate|reflexivity].
   Qed.
 End FdLoops.
+
+(* ------------------------------------------------------------------ D. invariants through the loops; the oracle instances *)
+Lemma retry_inv {S} (P : S -> Prop) (call : callT S) :
+  (forall s m v s' m' r, P s -> call s m v = Val ((s', m'), r) -> P s') ->
+  forall fuel s m v s' m' r, P s -> retry_eintr fuel call s m v = Val ((s', m'), r) -> P s'.
+Proof.
+  intros Hc. induction fuel as [|f IH]; intros s m v s' m' r HP H; [discriminate|].
+  cbn [retry_eintr] in H. destruct (call s m v) as [[[s1 m1] r1]| |] eqn:E; cbn [bind] in H; try discriminate.
+  pose proof (Hc _ _ _ _ _ _ HP E) as HP1.
+  destruct r1 as [n|[[]| |]]; try (inversion H; subst; exact HP1). eapply IH; eassumption.
+Qed.
+Lemma exact_loop_inv {S} (P : S -> Prop) zerr (call : callT S) :
+  (forall s m v s' m' r, P s -> call s m v = Val ((s', m'), r) -> P s') ->
+  forall fo fi s m pb s' m' r, P s -> exact_loop zerr fi fo call s m pb = Val ((s', m'), r) -> P s'.
+Proof.
+  intros Hc. induction fo as [|fo IH]; intros fi s m pb s' m' r HP H; [discriminate|].
+  rewrite exact_loop_unfold in H. destruct (vs_len pb =? 0); [inversion H; subst; exact HP|].
+  destruct (retry_eintr fi call s m pb) as [[[s1 m1] r1]| |] eqn:E; cbn [bind] in H; try discriminate.
+  pose proof (retry_inv P call Hc _ _ _ _ _ _ _ HP E) as HP1.
+  unfold loop_body in H. destruct r1 as [n|e]; [|inversion H; subst; exact HP1].
+  destruct (n =? 0); [inversion H; subst; exact HP1|].
+  destruct (vs_offset pb n); [|inversion H; subst; exact HP1]. eapply IH; eassumption.
+Qed.
+Lemma exact_volatile_inv {S} (P : S -> Prop) zerr (call : callT S) :
+  (forall s m v s' m' r, P s -> call s m v = Val ((s', m'), r) -> P s') ->
+  forall fuel s m v s' m' r, P s -> exact_volatile zerr fuel call s m v = Val ((s', m'), r) -> P s'.
+Proof.
+  intros Hc fuel s m v s' m' r HP H. unfold exact_volatile in H.
+  destruct (vs_offset v 0); [|inversion H; subst; exact HP]. eapply exact_loop_inv; eassumption.
+Qed.
+
+(* std's loops terminate on oracles that never fail: each round makes progress or stops *)
+Lemma std_read_exact_terminates {F} (os_read : F -> N -> F * os_rres) :
+  (forall f len, exists f' bs, os_read f len = (f', OsData bs)) ->
+  forall fuel f want acc, (N.to_nat want < fuel)%nat ->
+  exists of out r, std_fd_read_exact os_read fuel f want acc = Val (of, out, r).
+Proof.
+  intros Hos. induction fuel as [|k IH]; intros f want acc Hf; [lia|]. cbn [std_fd_read_exact].
+  destruct (N.eqb_spec want 0); [eauto|].
+  destruct (Hos f want) as (f' & bs & ->). destruct (N.eqb_spec (nlen bs) 0); [eauto|]. apply IH. lia.
+Qed.
+Lemma std_write_all_terminates {F} (os_write : F -> list N -> F * os_wres) :
+  (forall f d, exists f' n, os_write f d = (f', OsCount n)) ->
+  forall fuel f d, (N.to_nat (nlen d) < fuel)%nat ->
+  exists of r, std_fd_write_all os_write fuel f d = Val (of, r).
+Proof.
+  intros Hos. induction fuel as [|k IH]; intros f d Hf; [lia|]. cbn [std_fd_write_all].
+  destruct (N.eqb_spec (nlen d) 0); [eauto|].
+  destruct (Hos f d) as (f' & cnt & ->). destruct (N.eqb_spec cnt 0); [eauto|]. apply IH. rewrite nlen_ndrop. lia.
+Qed.
+
+Definition is_fd (k : skind) : bool := match k with KFile | KQueue => true | _ => false end.
+Lemma os_read_data k f len : exists f' bs, os_read_of k f len = (f', OsData bs) /\ nlen bs <= len.
+Proof.
+  destruct k; cbn [os_read_of]; unfold file_read, queue_read; eexists _, _; (split; [reflexivity|]);
+    rewrite nlen_ntake; lia.
+Qed.
+Lemma os_write_count k f d : exists f' n, os_write_of k f d = (f', OsCount n) /\ n <= nlen d.
+Proof.
+  destruct k; cbn [os_write_of]; unfold file_write, queue_write;
+    try (destruct (nlen d =? 0); eexists _, _; (split; [reflexivity|]); lia);
+    eexists _, _; (split; [reflexivity|]); lia.
+Qed.
+Lemma os_read_bounded k : forall f len f' bs, os_read_of k f len = (f', OsData bs) -> nlen bs <= len.
+Proof.
+  intros f len f' bs H. destruct (os_read_data k f len) as (f1 & b1 & E & Hl). rewrite E in H.
+  inversion H; subst. exact Hl.
+Qed.
+Lemma os_write_bounded k : forall f d f' n, os_write_of k f d = (f', OsCount n) -> n <= nlen d.
+Proof.
+  intros f d f' n H. destruct (os_write_count k f d) as (f1 & n1 & E & Hl). rewrite E in H.
+  inversion H; subst. exact Hl.
+Qed.
+
+Lemma agree_fd_read md k st pre : is_fd k = true ->
+  Agree (ORead pre) (vm_step md k st (ORead pre)) (std_step k st (ORead pre)).
+Proof.
+  intros Hk. assert (E : vm_step md k st (ORead pre) = lift_n (read_volatile_raw_fd (os_read_of k) st (arena pre) (win pre))
+                     /\ std_step k st (ORead pre) = let '(st', bs, r) := std_fd_read (os_read_of k) st (nlen pre) in Val (Some st', bs, rc_n r))
+    by (destruct k; try discriminate; split; reflexivity).
+  destruct E as [-> ->]. unfold read_volatile_raw_fd, std_fd_read, lift_n. cbn [win vs_len vs_off].
+  destruct (os_read_data k st (nlen pre)) as (f' & bs & -> & Hl). cbn [omap fst snd rc_n].
+  rewrite arena_write by exact Hl.
+  eexists _, _, _, _, _. split; [reflexivity|]. split; [reflexivity|]. agree_tail.
+  split; [apply nlen_write_prefix; exact Hl|].
+  split; [|split; [discriminate|discriminate]].
+  intros _. split; [reflexivity|]. split; [exact Hl|reflexivity].
+Qed.
+
+Lemma agree_fd_write md k st d : is_fd k = true ->
+  Agree (OWrite d) (vm_step md k st (OWrite d)) (std_step k st (OWrite d)).
+Proof.
+  intros Hk. assert (E : vm_step md k st (OWrite d) = lift_n (write_volatile_raw_fd (os_write_of k) st (arena d) (win d))
+                     /\ std_step k st (OWrite d) = let '(st', r) := std_fd_write (os_write_of k) st d in Val (Some st', [], rc_n r))
+    by (destruct k; try discriminate; split; reflexivity).
+  destruct E as [-> ->]. unfold write_volatile_raw_fd, std_fd_write, lift_n. cbn [win vs_len vs_off].
+  rewrite arena_read_all.
+  destruct (os_write_count k st d) as (f' & n & -> & Hl). cbn [omap fst snd rc_n].
+  eexists _, _, _, _, _. split; [reflexivity|]. split; [reflexivity|]. agree_tail.
+  split; [reflexivity|]. split; [|split; [discriminate|reflexivity]].
+  intros _. split; [reflexivity|]. split; [cbn; lia|discriminate].
+Qed.
+
+Lemma agree_fd_read_exact md k st pre : is_fd k = true -> buf_ok pre ->
+  Agree (OReadExact pre) (vm_step md k st (OReadExact pre)) (std_step k st (OReadExact pre)).
+Proof.
+  intros Hk Hb.
+  assert (E : vm_step md k st (OReadExact pre)
+              = lift_u (read_exact_volatile (fuel_of pre) (read_volatile_raw_fd (os_read_of k)) st (arena pre) (win pre))
+            /\ std_step k st (OReadExact pre)
+              = let* x := std_fd_read_exact (os_read_of k) (N.to_nat (nlen pre) + 2) st (nlen pre) [] in
+                let '(o', bs, r) := x in Val (o', bs, rc_unit r))
+    by (destruct k; try discriminate; split; reflexivity).
+  destruct E as [-> ->].
+  destruct (std_read_exact_terminates (os_read_of k)) with (fuel := (N.to_nat (nlen pre) + 2)%nat) (f := st)
+    (want := nlen pre) (acc := @nil N) as (of & out & r & Hstd).
+  { intros f len. destruct (os_read_data k f len) as (f' & bs & E & _). eauto. }
+  { lia. }
+  rewrite Hstd. cbn [bind].
+  unfold read_exact_volatile, exact_volatile. rewrite (win_offset0 pre Hb).
+  destruct (fd_read_exact_sim sstate (os_read_of k) (os_write_of k) (os_read_bounded k) (os_write_bounded k) (4096 + margin)
+              (N.to_nat (nlen pre) + 2) st [] pre of out r) with (fi := fuel_of pre) (fo := fuel_of pre)
+    as (f' & b' & He & Hl & Hok & Hko).
+  { unfold buf_ok in Hb. lia. } { cbn. lia. }
+  { cbn [nlen length N.of_nat]. rewrite N.sub_0_r. exact Hstd. }
+  { unfold fuel_of. lia. } { unfold fuel_of. lia. }
+  change (arena ([] ++ ndrop (nlen (@nil N)) pre)) with (arena pre) in He.
+  unfold pb_at in He. change (nlen (@nil N)) with 0 in He. unfold lift_u. rewrite He. cbn [omap fst snd].
+  eexists _, _, _, _, _. split; [reflexivity|]. split; [reflexivity|]. agree_tail.
+  split; [exact Hl|].
+  destruct r as [[]|e].
+  - destruct (Hok eq_refl) as [-> ->]. split; [|split; [discriminate|discriminate]].
+    intros _. split; [reflexivity|]. split; [lia|]. intros _.
+    rewrite ndrop_all by lia. rewrite app_nil_r. reflexivity.
+  - assert (Hf : rc_success (rc_unit (@Err unit e)) = false) by (destruct e as [[]| |]; reflexivity).
+    rewrite Hf. split; [discriminate|]. split; [|discriminate]. intros _. apply Hko. discriminate.
+Qed.
+
+Lemma agree_fd_write_all md k st d : is_fd k = true -> buf_ok d ->
+  Agree (OWriteAll d) (vm_step md k st (OWriteAll d)) (std_step k st (OWriteAll d)).
+Proof.
+  intros Hk Hb.
+  assert (E : vm_step md k st (OWriteAll d)
+              = lift_u (write_all_volatile (fuel_of d) (write_volatile_raw_fd (os_write_of k)) st (arena d) (win d))
+            /\ std_step k st (OWriteAll d)
+              = let* x := std_fd_write_all (os_write_of k) (N.to_nat (nlen d) + 2) st d in
+                let '(o', r) := x in Val (o', [], rc_unit r))
+    by (destruct k; try discriminate; split; reflexivity).
+  destruct E as [-> ->].
+  destruct (std_write_all_terminates (os_write_of k)) with (fuel := (N.to_nat (nlen d) + 2)%nat) (f := st) (d := d)
+    as (of & r & Hstd).
+  { intros f x. destruct (os_write_count k f x) as (f' & n & E & _). eauto. }
+  { lia. }
+  rewrite Hstd. cbn [bind].
+  unfold write_all_volatile, exact_volatile. rewrite (win_offset0 d Hb).
+  destruct (fd_write_all_sim sstate (os_read_of k) (os_write_of k) (os_read_bounded k) (os_write_bounded k) (4096 + margin)
+              (N.to_nat (nlen d) + 2) st 0 d of r) with (fi := fuel_of d) (fo := fuel_of d)
+    as (f' & He & Hok & Hko).
+  { unfold buf_ok in Hb. lia. } { lia. } { exact Hstd. }
+  { unfold fuel_of. lia. } { unfold fuel_of. lia. }
+  unfold pb_at in He. unfold lift_u. rewrite He. cbn [omap fst snd].
+  eexists _, _, _, _, _. split; [reflexivity|]. split; [reflexivity|]. agree_tail.
+  split; [reflexivity|].
+  destruct r as [[]|e].
+  - rewrite (Hok eq_refl). split; [|split; [discriminate|reflexivity]].
+    intros _. split; [reflexivity|]. split; [cbn; lia|discriminate].
+  - assert (Hf : rc_success (rc_unit (@Err unit e)) = false) by (destruct e as [[]| |]; reflexivity).
+    rewrite Hf. split; [discriminate|]. split; [|reflexivity]. intros _. apply Hko. discriminate.
+Qed.
